@@ -1,3 +1,4 @@
+import contextlib
 """Shared plumbing: seeds, evidence files, known findings, verdict lines, sharded trace validation."""
 import concurrent.futures
 import hashlib
@@ -11,6 +12,28 @@ from .tlcrun import run_tlc, MachineryError, VERIF, BUILD
 EVIDENCE = os.path.join(VERIF, "evidence")
 REPLAYS = os.path.join(VERIF, "replays")
 KNOWN = os.path.join(VERIF, "known_findings.json")
+
+
+@contextlib.contextmanager
+def time_limit(sec):
+    """a call of the library that runs longer than `sec` seconds is ended with TimeoutError (recorded like any other
+    exception of the call).  Normal calls take milliseconds (lattice crystals) to seconds (the real MOF files); the limits
+    are two orders of magnitude above that, so that only a change that makes the library hang or crawl is hit."""
+    import signal
+    import threading
+    if threading.current_thread() is not threading.main_thread():
+        yield
+        return
+
+    def handler(signum, frame):
+        raise TimeoutError("library call exceeded %d s" % sec)
+    old = signal.signal(signal.SIGALRM, handler)
+    signal.alarm(int(sec))
+    try:
+        yield
+    finally:
+        signal.alarm(0)
+        signal.signal(signal.SIGALRM, old)
 
 
 def seed():
